@@ -266,7 +266,8 @@ def conversion(ctx):
 
 
 def families(ctx):
-    return [(fn.__name__, (lambda fn=fn: fn(ctx))) for fn in (response_new, reason, conversion, policy_set_view)]
+    from . import c14_extra
+    return [(fn.__name__, (lambda fn=fn: fn(ctx))) for fn in (response_new, reason, conversion, policy_set_view)] + c14_extra.families(ctx)
 
 
 def run(ctx):
@@ -275,6 +276,7 @@ def run(ctx):
     ctx.bounds += ['classification step: one loop iteration from an arbitrary state over every Residual shape (Concrete any Value / Error / Partial) and effect; decision table: all bucket-emptiness states, completions at bucket granularity']
     ctx.assumptions += ['Iterator::next, ResidualPolicy getters, HashMap/HashSet::{insert,is_empty,iter}, PolicySet::add, Policy::{effect,id,annotations_arc}, Expr::from(Residual): environment stubs / uninterpreted functions',
                         'Residual::{is_true,is_false,is_error} are executed from the MIR (not stubbed)',
-                        'simplification rules of tpe::Evaluator::interpret, can_error_assuming_well_formed, consistency checks and the query_* APIs are NOT covered']
+                        'can_error_assuming_well_formed: per-node table with the recursive calls as free booleans; PartialEntity::check_consistency: map / set equalities as free booleans',
+                        'simplification rules of tpe::Evaluator::interpret, PartialRequest consistency and the query_* APIs are NOT covered']
     return ctx.finish('Solver-decided response table and views of the TPE response, executed from the MIR of the current tree: classification of residual policies into the eight bucket sets (and into the residual map), '
                       'completion-quantified decision table, reason(), the ResidualPolicy -> Policy conversion, and that policy_set() presents the residuals (views agree).')
